@@ -15,7 +15,9 @@ def run(chk, tier):
     chk.explain('K2/K3: in the path-sensitive decision table of teardown every path that has not established '
                 '`thread::panicking() == false` returns Ok, calls no explicit panic entry and no local function that can reach '
                 'one; teardown_panic panics only in the Err arm; Drop::drop has no other panic site. K1: closures run under '
-                'MutexIsh::locked call only mock-internal std code (no user code under a lock => no poisoning).')
+                'MutexIsh::locked call only mock-internal std code (no user code under a lock => no poisoning). R11.4: after a caught user panic '
+                'verification reflects the calls actually matched: the match counter is bumped from one site, only for the pattern the selector '
+                'returned, i.e. after every matcher / Debug call of the selection has returned.')
     for cfg in configs(tier, thorough=('std', 'mocks')):
         F = load(chk, cfg)
         fn, paths, rows = L.teardown_table(chk, F, 'R11.1', cfg)
@@ -32,3 +34,6 @@ def run(chk, tier):
         chk.ob('R11.2', 'Drop for ValueChain cannot panic explicitly', not mp.get(vc.defp), config=cfg, fn=vc, site='panic-sites',
                what='panic site reachable from ValueChain::drop', found=mp.get(vc.defp), expected=[])
         L.locked_census(chk, F, 'R11.3', cfg, LOCK_ALLOW, 3)
+        from props import evalcore as E
+        efn, epaths, erows = E.eval_dyn_table(chk, F, 'R11.4.table', cfg)
+        E.counting_discipline(chk, F, 'R11.4', cfg, efn, erows)
